@@ -37,6 +37,14 @@ class SendProto(Suite):
                                      types=("dir", "file", "symlink", "fifo", "chr", "hardlink"),
                                      file_sizes=(0, 1, 5, 100) if small_reads else (0, 1, 5, 100, 4096, 32767, 32768, 32769, 70000, 200000),
                                      xattrs=rng.random() < 0.5)
+            if rng.random() < 0.15:
+                # regular entries of size 0 that cannot be opened (what a unix socket in a real tree is to the sender): a request for one is
+                # answered like any other, by its terminator
+                for e in tree:
+                    if e["t"] == "file" and rng.random() < 0.3:
+                        e["size"] = 0
+                        e.pop("hole", None)
+                        e["openerr"] = True
             # ids of regular entries (incl. hard links): position in the view
             regs = [i for i, e in enumerate(tree) if e["t"] in ("file", "hardlink")]
             # hard links to non-regular sources are not regular
@@ -231,6 +239,13 @@ class RecvProto(Suite):
                    "seed": rng.randrange(1 << 30)}
             if wide:
                 ref["chunk"] = [4096]
+            if not wide and rng.random() < 0.06:
+                # dozens of ids in the middle of their content at the same time: every file takes several payloads, served round-robin
+                # (more files open at once than any cap on open descriptors / writers an implementation may have)
+                tree = flat_view(rng, rng.choice([20, 40, 70]), (5, 100, 1000))
+                dst = []
+                ref = {"chunk": [rng.choice([2, 7, 100, 300])], "interleave": rng.choice(["rr", "rr", "random"]), "eager": False,
+                       "seed": rng.randrange(1 << 30)}
             if rng.random() < 0.08:
                 ref["eof_before_fin"] = True
             op = {"op": "recvproto", "src": {"kind": "mem", "tree": tree}, "dst": dst, "ref": ref,
@@ -509,7 +524,19 @@ class Hostile(Suite):
                             "uid": 0, "gid": 0, "mt": gen.MTIMES[0], "mode": 0o777})
                 dst.sort(key=lambda e: gen.pathkey(bytes.fromhex(e["p"])))
                 answer = True
-            ops.append({"op": "hostile", "script": script, "dst": dst, "answer": answer, "opt": opt})
+            op = {"op": "hostile", "script": script, "dst": dst, "answer": answer, "opt": opt}
+            if answer and not (script and mut < 0.75) and not forced_dst and "metaonly" not in opt and rng.random() < 0.3:
+                # an otherwise well-formed sender that sends more content for an id AFTER it has terminated that id's answer
+                # (most telling for an empty file: its answer is the terminator alone)
+                sts = [x for x in script if x["t"] == "STAT" and x.get("stat")]
+                tmask = (1 << 31) | (1 << 27) | (1 << 26) | (1 << 25) | (1 << 24) | (1 << 21) | (1 << 19)
+                regs = [i for i, x in enumerate(sts) if x["stat"]["mode"] & tmask == 0 and not x["stat"].get("ln")]
+                if regs:
+                    i = rng.choice(regs)
+                    if rng.random() < 0.6:
+                        sts[i]["stat"]["size"] = 0
+                    op["after_eof"] = {str(i): rng.choice([1, 10, 4096])}
+            ops.append(op)
         return ops
 
     def judge(self, op, impl, model):
@@ -537,6 +564,10 @@ class Hostile(Suite):
             if extra:
                 ok = False
                 notes.append("entries at/after the first offender were applied: %s" % extra[:4])
+        elif op.get("after_eof") and impl.get("after_eof_sent"):
+            if impl["recv"] == "ok":
+                ok = False
+                notes.append("content sent for id %s after the terminator of its answer was accepted" % list(op["after_eof"])[0])
         else:
             complete = any(pk["t"] == "STAT" and not pk.get("stat") for pk in op["script"])
             if op["answer"] and complete and impl["recv"] != "ok":
